@@ -5,8 +5,14 @@ set -e
 cd "$(dirname "$0")/.."
 ROOT=$(pwd)
 export GOFLAGS=-mod=mod GOPROXY=off GOSUMDB=off GOTOOLCHAIN=local GOWORK=off
-(cd coq && coq_makefile -f _CoqProject -o Makefile >/dev/null && timeout 3000 make -j16 2>&1 | grep -v "^COQC\|^COQDEP\|^make" || true)
-(cd coq && timeout 3000 make -j16 >/dev/null)   # fails loudly if anything did not build
+# 1. regenerate the pure layer from the current sources (translator is rebuilt too)
+(cd translator && go build -o translator . && ./translator -repo /repo -out "$ROOT/coq/theories/Gen.new" \
+   && mkdir -p "$ROOT/coq/theories/Gen" \
+   && for f in "$ROOT"/coq/theories/Gen.new/*; do b=$(basename "$f"); cmp -s "$f" "$ROOT/coq/theories/Gen/$b" || cp "$f" "$ROOT/coq/theories/Gen/$b"; done; rm -rf "$ROOT/coq/theories/Gen.new") \
+  || { echo "TRANSLATOR FAILED"; rm -f "$ROOT"/coq/theories/Gen/*.v "$ROOT"/coq/theories/Gen/*.vo; }
+# 2. Coq development: full .vo build; -k so that a broken generated file only takes down
+#    the proofs that depend on it (each check verifies its own Properties/Cxx.vo)
+(cd coq && coq_makefile -f _CoqProject -o Makefile >/dev/null && (timeout 3000 make -k -j16 2>&1 | grep -v "^COQC\|^COQDEP\|^make" || true))
 (cd ocaml && timeout 600 coqc -Q ../coq/theories Arche ../coq/theories/Extract/Extract.v >/dev/null \
    && rm -f ../coq/theories/Extract/Extract.vo* ../coq/theories/Extract/Extract.glob ../coq/theories/Extract/.Extract.aux \
    && ocamlfind ocamlopt -w -a model.mli model.ml driver.ml -o driver)
